@@ -10,6 +10,7 @@ from hypothesis import strategies as st
 
 from .. import refeval
 from ..runner import V
+from ..engine import is_engine_exception as _is_engine_exception
 
 import pokerkit
 
@@ -45,7 +46,9 @@ def c05_case(draw):
         nh = draw(st.integers(0, 1))
         nb = draw(st.integers(0, 1))
         return dict(cls=cname, hole=list(cards[:nh]),
-                    board=list(cards[nh:nh + nb]))
+                    board=list(cards[nh:nh + nb]),
+                    hole_form=draw(st.sampled_from(['str', 'tuple', 'gen'])),
+                    board_form=draw(st.sampled_from(['str', 'list', 'iter'])))
     if base == 'short_deck':
         pool = DECK36
     else:
@@ -118,6 +121,8 @@ def check(case, stats):
     try:
         got_none = cls.from_game_or_none(*args())
     except Exception as e:  # noqa: BLE001
+        if not _is_engine_exception(e):
+            raise     # harness fault: exit 2
         out.append(V(ID, 'from_game_or_none_raised', cname,
                      f'{cname}.from_game_or_none({hs!r},{bs!r}) raised'
                      f' {e!r}'))
@@ -129,6 +134,8 @@ def check(case, stats):
         got = None
         raised = e
     except Exception as e:  # noqa: BLE001
+        if not _is_engine_exception(e):
+            raise     # harness fault: exit 2
         out.append(V(ID, 'from_game_wrong_exception', cname,
                      f'{cname}.from_game({hs!r},{bs!r}) raised {e!r}'
                      ' (ValueError expected when no hand exists)'))
